@@ -12,6 +12,7 @@ import (
 	"strings"
 	"time"
 
+	"deps.dev/util/resolve"
 	scalibrfs "github.com/google/osv-scalibr/fs"
 	"github.com/google/osv-scalibr/guidedremediation/options"
 	"github.com/google/osv-scalibr/guidedremediation/result"
@@ -173,6 +174,16 @@ func copyFile(src, dstDir string) (string, error) {
 	return dst, os.WriteFile(dst, b, 0o644)
 }
 
+// prefixed returns the class labels of a case, each prefixed with the driver, plus the
+// driver's case counter.
+func prefixed(driver string, m map[string]bool) []string {
+	out := []string{driver + ":cases"}
+	for _, k := range classes(m) {
+		out = append(out, driver+":"+k)
+	}
+	return out
+}
+
 func classes(m map[string]bool) []string {
 	out := make([]string, 0, len(m))
 	for k, v := range m {
@@ -210,6 +221,143 @@ func suppressDepMgmtDiffer(m *universe.Manifest) {
 				m.Management[i].Req = d.Req
 			}
 		}
+	}
+}
+
+// Class override_direct_vs_transitive_range: a package that is a direct dependency of a Maven
+// manifest is also the target of a bracketed (hard or range) requirement of some version in
+// the universe. The soft requirement the override strategy writes for the direct dependency
+// then loses against the transitive range, the resolved version does not move, and
+// override.patchVulns repeats the same override forever.
+const clsDirectVsRange = "override_direct_vs_transitive_range"
+
+func reqLineParts(line string) (prefix, name, req string, ok bool) {
+	if !strings.HasPrefix(line, "    ") {
+		return "", "", "", false
+	}
+	body := line[4:]
+	prefix = "    "
+	if i := strings.Index(body, "|"); i >= 0 {
+		prefix += body[:i+1]
+		body = body[i+1:]
+	}
+	at := strings.LastIndex(body, "@")
+	if at <= 0 {
+		return "", "", "", false
+	}
+	return prefix, body[:at], body[at+1:], true
+}
+
+func directVsRange(s universe.Scenario) bool {
+	if s.Universe.System != universe.Maven {
+		return false
+	}
+	direct := map[string]bool{}
+	for _, d := range s.Manifest.Deps {
+		direct[d.Name] = true
+	}
+	for _, l := range s.Universe.Schema {
+		if _, name, req, ok := reqLineParts(l); ok && direct[name] && universe.IsMavenRange(req) {
+			return true
+		}
+	}
+	return false
+}
+
+// suppressDirectVsRange turns the offending universe requirements into soft requirements on
+// the first version named inside the brackets.
+func suppressDirectVsRange(s *universe.Scenario) {
+	direct := map[string]bool{}
+	for _, d := range s.Manifest.Deps {
+		direct[d.Name] = true
+	}
+	for i, l := range s.Universe.Schema {
+		prefix, name, req, ok := reqLineParts(l)
+		if !ok || !direct[name] || !universe.IsMavenRange(req) {
+			continue
+		}
+		soft := ""
+		for _, part := range strings.Split(strings.Trim(req, "[]()"), ",") {
+			if part != "" {
+				soft = part
+				break
+			}
+		}
+		s.Universe.Schema[i] = prefix + name + "@" + soft
+	}
+}
+
+func honourDirectVsRange(col *ev.Collector, prefix string, s *universe.Scenario) {
+	if col == nil || !directVsRange(*s) {
+		return
+	}
+	if cls := prefix + "." + clsDirectVsRange; col.IsKnown(cls) {
+		col.Excluded(cls)
+		suppressDirectVsRange(s)
+	}
+}
+
+// Class relax_prerelease_base_patch_level: an npm direct requirement of a package configured
+// at level "patch" currently selects a pre-release version (the greatest known version that
+// matches it, according to deps.dev's matcher, is a pre-release). NpmRelaxer.Relax then sees
+// a "prerelease" difference to the next version and writes ^x.y.z instead of ~x.y.z.
+const clsRelaxPrerelease = "relax_prerelease_base_patch_level"
+
+// relaxPrereleaseDeps returns the direct npm requirements in the class.
+func relaxPrereleaseDeps(s universe.Scenario) []string {
+	if s.Universe.System != universe.NPM {
+		return nil
+	}
+	cl, err := s.Universe.Client()
+	if err != nil {
+		return nil
+	}
+	var out []string
+	for _, d := range s.Manifest.Deps {
+		if s.Levels.Level(d.Name) != universe.LevelPatch {
+			continue
+		}
+		vs, err := cl.MatchingVersions(context.Background(), resolve.VersionKey{
+			PackageKey:  resolve.PackageKey{System: resolve.NPM, Name: d.Name},
+			Version:     d.Req,
+			VersionType: resolve.Requirement,
+		})
+		if err != nil || len(vs) == 0 {
+			continue
+		}
+		var top universe.Ver
+		have := false
+		for _, v := range vs {
+			if pv, ok := universe.ParseVer(v.Version); ok && (!have || pv.Compare(top) > 0) {
+				top, have = pv, true
+			}
+		}
+		if have && top.Pre != 0 {
+			out = append(out, d.Name)
+		}
+	}
+	return out
+}
+
+// honourRelaxPrerelease suppresses the class by raising the level of the package to minor.
+func honourRelaxPrerelease(col *ev.Collector, prefix string, s *universe.Scenario) {
+	if col == nil || s.Universe.System != universe.NPM {
+		return
+	}
+	cls := prefix + "." + clsRelaxPrerelease
+	if !col.IsKnown(cls) {
+		return
+	}
+	names := relaxPrereleaseDeps(*s)
+	if len(names) == 0 {
+		return
+	}
+	col.Excluded(cls)
+	if s.Levels.Packages == nil {
+		s.Levels.Packages = map[string]string{}
+	}
+	for _, n := range names {
+		s.Levels.Packages[n] = universe.LevelMinor
 	}
 }
 
